@@ -173,6 +173,12 @@ def _observe(t, it, model, case, info):
             between = True
     info.count("queries", len(queries))
 
+    # two walks of the same NodeIterator object advanced alternately
+    def zipped():
+        return list(zip(it.keys(), it.values())), [p for p, _ in zip(it.nodes(), it.keys())]
+
+    pairs, _ = impl("items", zipped)
+    expect_eq("items-in-order-each-once", pairs, [(k, model[k]) for k in order], "zip(keys(), values()) of one iterator")
     nodes = impl("nodes", lambda: list(it.nodes()))
     want_nodes = [(n.prefix, n.enc) for n in ref.preorder()]
     got_nodes = [
